@@ -395,6 +395,11 @@ func (m *model) ruleFirst(name string) *NSet {
 	}
 	walk(rule, 0)
 	if has {
+		// a rule the -switch pass has rewritten: what it can start with is read off its
+		// unrewritten twin (the callee's contract is the same for both sides of the comparison)
+		if m.twin != nil {
+			return m.twin.ruleFirst(name)
+		}
 		return nil
 	}
 	c, s := m.firstOracle(rule, map[*Obj]bool{})
